@@ -49,7 +49,7 @@ func c17setup(tier string, seed uint64) int {
 		c17.pats = strsOver(c17alpha, 5)
 		c17.nRandom = 200000
 	} else {
-		c17.pats = strsOver(c17alpha, 3)
+		c17.pats = strsOver(c17alpha, 4)
 		c17.nRandom = 20000
 	}
 	// part 2: patterns <= 3 in batches of 41 (+ seeded longer ones)
@@ -122,8 +122,10 @@ func c17run(idx int) run.Result {
 		res.Classes = []string{"enumerated-pattern"}
 		// complete blocks: quick: |p|<=3 x |k|<=4; thorough: |p|<=4 x |k|<=4, |p|<=5 x |k|<=3, |p|<=3 x |k|<=5
 		switch {
-		case c17.tier != "thorough":
+		case c17.tier != "thorough" && len(p) <= 3:
 			c17pairs(&res, p, c17.keys4, "pat<=3 x key<=4 (complete)")
+		case c17.tier != "thorough":
+			c17pairs(&res, p, c17.keys3, "pat=4 x key<=3 (complete)")
 		case len(p) <= 3:
 			c17pairs(&res, p, c17.keys5, "pat<=3 x key<=5 (complete)")
 		case len(p) == 4:
@@ -270,7 +272,7 @@ func init() {
 	run.Register(&run.Prop{
 		ID: "C17", Level: "exploration",
 		Rule: func(tier string) string {
-			blocks := "patterns of length <=3 x keys of length <=4 over {a,b,*,?,.,+,(,|,$} (820 x 7381 pairs, complete)"
+			blocks := "complete blocks: patterns of length <=3 x keys of length <=4 (820 x 7381 pairs) and patterns of length 4 x keys of length <=3 (6561 x 820 pairs) over {a,b,*,?,.,+,(,|,$}"
 			if tier == "thorough" {
 				blocks = "complete blocks: patterns <=3 x keys <=5, patterns =4 x keys <=4, patterns =5 x keys <=3 over {a,b,*,?,.,+,(,|,$}; the remaining patterns =5 x keys 4..5 block is sampled (150 keys per pattern)"
 			}
